@@ -373,10 +373,10 @@ pub fn run_generic(prop: &'static str, tier: Tier, tree: bool, spans: bool) -> i
     }
     // declared 8-bit encodings, exhaustively: every byte 0x80..=0xFF as the text and the attribute value of a
     // document declared windows-1252 must read as the character the WHATWG windows-1252 index gives it; under the
-    // ISO-8859-1 label every byte 0xA0..=0xFF must read as the code point of the same number (for 0x80..=0x9F the
-    // two standards differ, so that label carries no expectation there)
+    // ISO-8859-1 labels every byte must read as the code point of the same number (0x80..=0x9F are the C1 controls
+    // there - legal XML characters - not the windows-1252 punctuation)
     if tree {
-        for (label, lo) in [("windows-1252", 0x80u32), ("ISO-8859-1", 0xA0u32), ("iso-8859-1", 0xA0), ("latin1", 0xA0)] {
+        for (label, lo) in [("windows-1252", 0x80u32), ("ISO-8859-1", 0x80u32), ("iso-8859-1", 0x80), ("latin1", 0x80)] {
             for b in lo..=0xFF {
                 let mut bytes = format!("<?xml version=\"1.0\" encoding=\"{}\"?><a k=\"", label).into_bytes();
                 bytes.push(b as u8);
@@ -410,7 +410,7 @@ pub fn run_generic(prop: &'static str, tier: Tier, tree: bool, spans: bool) -> i
     let mut cov = json!({
         "evaluations": stats.evals,
         "distinct_nontrivial": total_cases,
-        "rule": format!("{} abstract documents (sharp characters in text and attribute values, structure with comments / PIs / top-level items, namespace layouts with shadowing, undeclaration, synonymous prefixes and a URI containing '&', xml:id / xml:space) x every spelling with at most {} deviations (3 for the small documents) from the default spelling over the renderer's choice points (character: literal / entity / decimal / hex / CDATA; line ends LF / CR / CRLF; attribute white space; quote style; in-tag white space; declaration / attribute interleaving; prefix choice; empty-element form; prolog; top-level white space; PI separator; xml:id padding; entry point parse / parse_with_span_info / parse_fragment / parse_bytes as UTF-8 +- BOM, UTF-16LE/BE, declared ISO-8859-1 / windows-1252); every single byte 0x80..=0xFF under a declared windows-1252 (0xA0..=0xFF under ISO-8859-1 labels) as text and attribute value; distinct = number of deviation sets (each is a different text or entry point) plus the layouts of the layout sweep (every expressible namespace layout of 1-3 elements in the default spelling of an independent renderer, through parse and parse_fragment)", docs.len(), k),
+        "rule": format!("{} abstract documents (sharp characters in text and attribute values, structure with comments / PIs / top-level items, namespace layouts with shadowing, undeclaration, synonymous prefixes and a URI containing '&', xml:id / xml:space) x every spelling with at most {} deviations (3 for the small documents) from the default spelling over the renderer's choice points (character: literal / entity / decimal / hex / CDATA; line ends LF / CR / CRLF; attribute white space; quote style; in-tag white space; declaration / attribute interleaving; prefix choice; empty-element form; prolog; top-level white space; PI separator; xml:id padding; entry point parse / parse_with_span_info / parse_fragment / parse_bytes as UTF-8 +- BOM, UTF-16LE/BE, declared ISO-8859-1 / windows-1252); every single byte 0x80..=0xFF under a declared windows-1252 (and under ISO-8859-1 labels, where 0x80..=0x9F are C1 controls) as text and attribute value; distinct = number of deviation sets (each is a different text or entry point) plus the layouts of the layout sweep (every expressible namespace layout of 1-3 elements in the default spelling of an independent renderer, through parse and parse_fragment)", docs.len(), k),
         "documents": docs.len(),
         "deviation_levels": {"0": per_level[0], "1": per_level[1], "2": per_level[2], "3": per_level[3], "4": per_level[4]},
     });
